@@ -768,6 +768,11 @@ fn spawn_response_loop(mut reader: BufReader<TcpStream>, inner: std::sync::Weak<
                     continue;
                 }
                 Err(err) => {
+                    // Close the socket through this thread's own handle first:
+                    // a request write may be blocked on a peer that stopped
+                    // reading, and it holds the writer lock `fail_all_pending`
+                    // needs. The shutdown fails that write, which frees the lock.
+                    let _ = reader.get_ref().shutdown(Shutdown::Both);
                     fail_all_pending(&inner, err);
                     break;
                 }
